@@ -44,7 +44,7 @@ func DefaultProfile() *Profile {
 		StoreEvery: 1, PoolEvery: 1, LockEvery: 1, StatsEvery: 7, MapGetEvery: 5,
 		MinOps: 20, MaxOps: 300, MaxEntities: 120, Observers: true,
 		CbActions:   []int{CbNothing, CbRead, CbQuery, CbWritePtr, CbGC, CbStructural, CbUnregSelf, CbUnregOther, CbRegNew},
-		MisuseKinds: []string{"stale", "dup_add", "missing_remove", "empty_list", "missing_target", "dead_target", "query_dead_target", "query_foreign_relation"},
+		MisuseKinds: []string{"stale", "dup_add", "missing_remove", "empty_list", "missing_target", "dead_target", "query_dead_target", "query_foreign_relation", "obs_invalid"},
 	}
 }
 
@@ -300,6 +300,17 @@ func (g *Gen) nextScenario() (Op, bool) {
 	case 3:
 		sc.phase = 4
 		return Op{K: KSweep}, true
+	case 10:
+		// filter scenario: use a filter for Batch(rel), then hold several of its queries
+		// with different per-query targets open at once, then run them to the end
+		sc.phase = 11
+		return Op{K: KBatchUse, F: sc.kind, QR: []RelSpec{{T: sc.comps[0], Tgt: 0}}}, true
+	case 11:
+		sc.phase = 12
+		return Op{K: KOpenQuery, F: sc.kind, W: 0, QR: []RelSpec{{T: sc.comps[0], Tgt: g.R.Intn(4)}}, N: 2 + g.R.Intn(2)}, true
+	case 12, 13, 14:
+		sc.phase++
+		return Op{K: KNext, Q: 1000 - sc.phase, N: 19}, true
 	}
 	g.scen = nil
 	return Op{}, false
@@ -316,9 +327,40 @@ func sortInts(a []int) {
 // Next draws the next op.
 func (g *Gen) Next() Op {
 	m := g.S.M
-	if g.scen != nil && !g.S.locked() {
+	if g.scen != nil && (!g.S.locked() || g.scen.phase >= 10) {
 		if op, ok := g.nextScenario(); ok {
 			return op
+		}
+	}
+	if g.P.Scenarios > 0 && g.scen == nil && len(g.S.filters) > 0 && g.S.lockDepth < 50 && g.R.Chance(g.P.Scenarios/2) {
+		// filter scenario on a typed filter that can be partitioned by a relation component
+		start := g.R.Intn(len(g.S.filters))
+		for i := range g.S.filters {
+			fidx := (start + i) % len(g.S.filters)
+			fi := g.S.filters[fidx]
+			if !fi.A.CanRegister() {
+				continue
+			}
+			for _, t := range relTypesOf(fi.Spec.Required()) {
+				fixed := false
+				for _, r := range fi.Rels {
+					if r.T == t {
+						fixed = true
+					}
+				}
+				if !fixed {
+					g.scen = &scenario{comps: []int{t}, kind: fidx, phase: 10}
+					break
+				}
+			}
+			if g.scen != nil {
+				break
+			}
+		}
+		if g.scen != nil {
+			if op, ok := g.nextScenario(); ok {
+				return op
+			}
 		}
 	}
 	if g.P.Scenarios > 0 && g.scen == nil && len(m.Live) > 2 && !g.S.locked() && g.R.Chance(g.P.Scenarios) {
@@ -390,6 +432,8 @@ func (g *Gen) Next() Op {
 		n := 0
 		if g.P.Name == "C07" && g.R.Chance(0.04) {
 			n = 66 // burst up to the capacity of 64 and beyond
+		} else if g.R.Chance(0.15) {
+			n = g.R.Range(2, 3) // several open queries of one filter with different per-query targets
 		}
 		return Op{K: KOpenQuery, F: g.R.Intn(MaxFilters), W: g.R.Intn(2), QR: g.queryRels(), N: n}
 	case KNext:
